@@ -7,6 +7,16 @@ use rssl_text::SourceLocation;
 
 /// Process an AST pipeline definition
 pub fn parse_pipeline(def: &ast::PipelineDefinition, context: &mut Context) -> TyperResult<()> {
+    // Pipelines are selected by name so the name must be unique
+    if context
+        .module
+        .pipelines
+        .iter()
+        .any(|existing| existing.name.node == def.name.node)
+    {
+        return Err(TyperError::PipelineAlreadyDefined(def.name.location));
+    }
+
     let mut pipeline = ir::PipelineDefinition {
         name: def.name.clone(),
         default_bind_group_index: 0,
